@@ -28,6 +28,10 @@ def run(model, rep, tier):
     r5_formatter_interface(ctx, rep)
     r6_summary_and_cleanup(ctx, rep)
     r7_run_continues(ctx, rep)
+    r8_optional_groups(ctx, rep)
+    rep.rule('C04.R9', 'no callback stops the run on its own: without --stop-on-error no result '
+             'event sets shouldStop (every other selected test still runs)')
+    tsrules.no_stop_without_flag(ctx, rep, 'C04.R9')
     rep.units['cfg'] = ctx.cfg_stats
 
 
@@ -379,3 +383,80 @@ def r7_run_continues(ctx, rep):
               key='run_tests:continue', func=fi.qualname, where=ctx.where(fi, fi.node))
     from . import c01
     c01.r6_final_teardown(ctx, rep, R='C04.R7')
+
+
+STR_ONLY_METHODS = ('writelines', 'write', 'join')
+
+
+def r8_optional_groups(ctx, rep, R='C04.R8'):
+    rep.rule(R, 'failure reporting does not fail on its own data: a capture group that can be unset '
+             'in a successful match of a constant regular expression (computed from the regex '
+             'syntax tree) never reaches a str-only API (writelines / write / join / + str) '
+             'without a None guard -- such a TypeError would escape from the result callback and '
+             'abort the run')
+    from sa.regexgroups import optional_groups
+    from sa.variance import path_literals
+    m = ctx.model
+    sites = 0
+    for fi in m.all_functions():
+        for n in ast.walk(fi.node):
+            if not (isinstance(n, ast.Assign) and isinstance(n.value, ast.Call) and
+                    isinstance(n.value.func, ast.Attribute) and n.value.func.attr == 'groups' and
+                    isinstance(n.value.func.value, ast.Name)):
+                continue
+            mv = n.value.func.value.id
+            pat = None
+            for x in ast.walk(fi.node):
+                if isinstance(x, ast.Assign) and len(x.targets) == 1 and \
+                        isinstance(x.targets[0], ast.Name) and x.targets[0].id == mv and \
+                        isinstance(x.value, ast.Call) and x.lineno <= n.lineno:
+                    d = m.resolve_dotted(fi.module, dotted(x.value.func)) or ''
+                    if d in ('re.match', 're.search', 're.fullmatch') and x.value.args and \
+                            isinstance(x.value.args[0], ast.Constant):
+                        pat = x.value.args[0].value
+                    elif isinstance(x.value.func, ast.Attribute) and \
+                            x.value.func.attr in ('match', 'search', 'fullmatch'):
+                        c = fi.module.constants.get(dotted(x.value.func.value) or '')
+                        if isinstance(c, ast.Call) and c.args and isinstance(c.args[0], ast.Constant):
+                            pat = c.args[0].value
+            if pat is None or not isinstance(n.targets[0], (ast.Tuple, ast.List)):
+                continue
+            og = optional_groups(pat)
+            if og is None:
+                rep.undecide(R, '%s: %r' % (fi.qualname, pat), 'cannot parse the pattern')
+                continue
+            sites += 1
+            ng, opt = og
+            names = [e.id if isinstance(e, ast.Name) else None for e in n.targets[0].elts]
+            maybe_none = {nm for i, nm in enumerate(names, 1) if nm and i in opt}
+            bad = []
+            if len(names) != ng:
+                bad.append('%d names unpack %d groups' % (len(names), ng))
+            for use in ast.walk(fi.node):
+                if isinstance(use, ast.Name) and use.id in maybe_none and \
+                        isinstance(use.ctx, ast.Load) and use.lineno >= n.lineno:
+                    par = use._parent
+                    sink = None
+                    if isinstance(par, (ast.List, ast.Tuple)) and isinstance(par._parent, ast.Call) and \
+                            isinstance(par._parent.func, ast.Attribute) and \
+                            par._parent.func.attr in STR_ONLY_METHODS:
+                        sink = par._parent.func.attr
+                    elif isinstance(par, ast.Call) and isinstance(par.func, ast.Attribute) and \
+                            par.func.attr in ('write',) and use in par.args:
+                        sink = 'write'
+                    elif isinstance(par, ast.BinOp) and isinstance(par.op, ast.Add):
+                        sink = '+'
+                    if sink:
+                        guarded = any((is_name_(e, use.id) and pos) or
+                                      (norm(e) == '%s is None' % use.id and not pos)
+                                      for e, pos in path_literals(use, fi.node))
+                        if not guarded:
+                            bad.append('group variable %r (optional in %r) reaches %s' % (use.id, pat, sink))
+            rep.check(not bad, R, '%s: groups of %r are all set when used as str' % (fi.qualname, pat[:40]),
+                      '; '.join(sorted(set(bad))), key='groups:%s:%s' % (fi.qualname, pat[:40]),
+                      func=fi.qualname, where=ctx.where(fi, n))
+    rep.floor(R, sites, 2, 'regex group unpacking sites')
+
+
+def is_name_(e, name):
+    return isinstance(e, ast.Name) and e.id == name
